@@ -67,6 +67,11 @@ def tail(target, q):
     return t
 
 
+# further payload kinds (request / response payloads of C11: checks/reqres_parts.c02_reqres) are plugged in
+# here as functions(ctx) once their builders hand them over
+EXTRA_PARTS = []
+
+
 def run(ctx):
     vp.cargo_build([ps.DRIVER])
     ps.cleanup_shm()
@@ -87,6 +92,8 @@ def run(ctx):
                     lambda r: r.update(cnt=r["cnt"] - 1, cs=r["cs"][:-1]), "probe_count_changed")
         ps.selftest(ctx, PID, trace, lambda r: r.get("a") == "recv" and r.get("r") == "some",
                     lambda r: r.update(bad=[r["id"]]), "canary_mismatch")
+    for _name, fn in EXTRA_PARTS:
+        fn(ctx)
     ps.cleanup_shm()
 
 
